@@ -13,11 +13,13 @@ func init() {
 			runG11(c.Repo, c.Rep)
 			runG1(c.Repo, c.Rep)
 			g8Registry(c)
+			g13Fields(c)
+			g8CallsReachAdd(c.Repo, c.Rep)
 			c.Rep.floor("G11", 6)
 			c.Rep.floor("G1", 350)
 			runR_C01(c)
 		},
-		explanation: "Structural necessary conditions of C01 decided statically: (G11) the work list cannot report success before every generator is Done and name lookup answers only under the type comparison; (G1) no generator error is dropped or swallowed; (G8) every plugin is registered once and every deps[...] key is bound; (Engine R) every accepted abstract run of every plugin emits text that parses and gofmt-s (R1), refers only to holes / universe names / identifiers it declares (R2), uses exactly the imports it requested (R3), marks what it generates (Generating must-pass-through) and, where kinds are determined, type-checks against the documented helper signatures (R4, thorough). Not decided: import-alias collisions, the multi-pass reload loop, _test files, shapes beyond the stated bounds.",
+		explanation: "Structural necessary conditions of C01 decided statically: (G11) the work list cannot report success before every generator is Done and name lookup answers only under the type comparison; (G1) no generator error is dropped or swallowed; (G8) every plugin is registered once, every deps[...] key is bound and every discovered call reaches Add or the deferred list; (G13) Field.Private agrees with Go's exportedness on every class of first characters and unvendor strips whole vendor path elements only; (Engine R) every accepted abstract run of every plugin emits text that parses and gofmt-s (R1), refers only to holes / universe names / identifiers it declares (R2), uses exactly the imports it requested (R3), marks what it generates (Generating must-pass-through) and, where kinds are determined, type-checks against the documented helper signatures (R4, thorough). Not decided: import-alias collisions, the multi-pass reload loop, _test files, shapes beyond the stated bounds.",
 		assumptions: commonAssumptions,
 		technique:   "custom static analysis: CFG dominance lints over the driver + abstract interpretation of plugins into residual programs checked with go/parser, go/format and go/types",
 	}
